@@ -97,7 +97,9 @@ def gen_case(rng, allow=None):
     sig = D.gen_signals(rng, vs, aligned_start=aligned)
     if rng.random() < 0.4:
         sig = {v: [(t, x) for (t, _), x in zip(s_, pattern_values(rng, len(s_)))] for v, s_ in sig.items()}
-    return {"f": f, "sig": sig, "stream": ("off-c/direct" if direct else "off-c") + ("" if aligned else "/starts")}
+    units_seed = rng.randint(0, 10 ** 6) if rng.random() < 0.15 and any(x[0] in ("tb1", "tb2") for x in F.subformulas(f)) else None
+    return {"f": f, "sig": sig, "units_seed": units_seed,
+            "stream": ("off-c/direct" if direct else "off-c") + ("" if aligned else "/starts") + ("/units" if units_seed is not None else "")}
 
 
 def explore(ctx, rng, count):
@@ -126,7 +128,10 @@ def explore(ctx, rng, count):
 def replay(ctx, obj):
     f = F.from_proto(obj["formula"])
     sig = {v: [(Fraction(t), float(x)) for t, x in s] for v, s in obj["signals"].items()}
-    v = D.compare_offline(Ctx(ctx.id, ctx.tier, ctx.seed), f, sig, "replay")
+    if obj.get("units_seed") is not None:
+        (c, v), = D.compare_offline_batch(Ctx(ctx.id, ctx.tier, ctx.seed), [{"f": f, "sig": sig, "stream": "replay", "units_seed": obj["units_seed"]}])
+    else:
+        v = D.compare_offline(Ctx(ctx.id, ctx.tier, ctx.seed), f, sig, "replay")
     return (v is None), (v.what if v else "dense offline result equals the dense semantics on the replayed case")
 
 
